@@ -22,6 +22,7 @@ type Env struct {
 	cur   *State
 	old   *State
 	entry *State            // loop-entry state (entry(x))
+	prev  *State            // state at the start of the current loop iteration (prev(x) in step clauses)
 	vars  map[string]TV     // parameters (entry values), lets, bound variables, result
 	fr    *Frame            // locals for loop invariants
 	ctx   *CtxV
@@ -158,6 +159,18 @@ func (e *Env) world() *World {
 	w := e.cur.worlds[e.ctx.World]
 	if w == nil {
 		efail("world %d missing", e.ctx.World)
+	}
+	return w
+}
+
+func (e *Env) worldOf(tv TV) *World {
+	c, ok := tv.V.(*CtxV)
+	if !ok {
+		efail("not an sdk.Context value")
+	}
+	w := e.cur.worlds[c.World]
+	if w == nil {
+		efail("world %d missing", c.World)
 	}
 	return w
 }
@@ -664,6 +677,14 @@ func (e *Env) evalCall(x *Expr) TV {
 				efail("entry() outside a loop invariant")
 			}
 			return e.inState(e.entry).eval(args[0])
+		case "prev":
+			if e.prev == nil {
+				efail("prev() outside a loop step clause")
+			}
+			return e.inState(e.prev).eval(args[0])
+		case "sameworld": // two sdk.Context values see the same store, dependency state and effect log
+			wa, wb := e.worldOf(e.eval(args[0])), e.worldOf(e.eval(args[1]))
+			return TV{And(Eq(wa.S, wb.S), Eq(wa.X, wb.X), Eq(wa.E, wb.E)), nil}
 		case "len":
 			return TV{e.lenOf(e.eval(args[0])), nil}
 		case "min", "max":
